@@ -340,7 +340,10 @@ def serde_path_panics(crate, syn, prop="C10"):
 def run(ctx):
     out = []
     syn = ctx.syn
-    for fs in ctx.featuresets():
+    fsets = ctx.featuresets()
+    if "nowarn" not in fsets:
+        fsets = fsets + ["nowarn"]   # the serde fallback has a branch compiled only under no-serde-warnings
+    for fs in fsets:
         c = ctx.mir(fs)["ts_rs_macros"]
         T = tables.extract(c)
         res = [arm_agreement(T), supported_keys(T), eq_once(T), fallback_rule(T, c), skip_cursor_rule(c), serde_path_panics(c, syn)]
